@@ -12,9 +12,10 @@ PENDING_REASON = 'check not built yet in this session (work in progress; see DES
 def main():
     props = [json.loads(l) for l in open(os.path.join(VERIF, 'properties.jsonl'))]
     checks, na = [], []
+    ready = set(open(os.path.join(VERIF, 'tools', 'ready.txt')).read().split())
     for p in props:
         pid = p['id']
-        if pid in PROPS and pid in TEXT:
+        if pid in PROPS and pid in TEXT and pid in ready:
             text, ref, tech = TEXT[pid]
             cfg = PROPS[pid]
             checks.append({
